@@ -52,6 +52,10 @@ type c07Case struct {
 	PanicT    int     `json:"panic_t,omitempty"`
 	Err       *c07Err `json:"err,omitempty"`
 	RoundTrip bool    `json:"round_trip,omitempty"`
+	// further failing requests served by the SAME Echo instance, one after the other on the same
+	// goroutine (so sync.Pool hands the context of the previous request back); only the
+	// per-request fields (Method, Pre, PreCode, Panic, PanicT, Err) of these are used
+	Then []*c07Case `json:"then,omitempty"`
 }
 
 // ---- markers: every atom is a unique string ----
@@ -162,9 +166,18 @@ func c07EncErr(e *c07Err) string {
 	return wJoin("3", wInt(e.Code), c07EncMsg(e.Msg), c07EncErr(e.In))
 }
 
+// line for the model: number of requests, then each request with the Echo-level configuration
 func c07Ops(c *c07Case) string {
+	parts := []string{wInt(1 + len(c.Then)), c07OpsOne(c, c)}
+	for _, rq := range c.Then {
+		parts = append(parts, c07OpsOne(c, rq))
+	}
+	return strings.Join(parts, " ")
+}
+
+func c07OpsOne(cfg, c *c07Case) string {
 	pre := map[string]int{"": 0, "wrote": 1, "nocontent": 2, "flush": 3, "jsonbad": 4, "writeheader": 5}[c.Pre]
-	parts := []string{wBool(c.Debug), wBool(c.Method == http.MethodHead), wBool(c.Recover), wBool(c.DisableEH), wBool(c.Double),
+	parts := []string{wBool(cfg.Debug), wBool(c.Method == http.MethodHead), wBool(cfg.Recover), wBool(cfg.DisableEH), wBool(cfg.Double),
 		wInt(pre), wInt(c.PreCode)}
 	switch c.Panic {
 	case "":
@@ -288,7 +301,7 @@ func c07Depth(e *c07Err) int {
 	return 1 + c07Depth(e.In)
 }
 
-func c07NewEcho(c *c07Case, onCtx func(echo.Context)) *echo.Echo {
+func c07NewEcho(c *c07Case, cur func() *c07Case, onCtx func(echo.Context)) *echo.Echo {
 	e := echo.New()
 	e.Logger.SetOutput(io.Discard)
 	e.Debug = c.Debug
@@ -314,6 +327,7 @@ func c07NewEcho(c *c07Case, onCtx func(echo.Context)) *echo.Echo {
 		if onCtx != nil {
 			onCtx(ctx)
 		}
+		c := cur() // the request being served
 		switch c.Pre {
 		case "wrote":
 			_ = ctx.String(c.PreCode, "pre")
@@ -349,14 +363,61 @@ func c07NewEcho(c *c07Case, onCtx func(echo.Context)) *echo.Echo {
 
 func c07Run(ci any) (res Result) {
 	c := ci.(*c07Case)
-	ops := c07Ops(c)
+	ops := ""
 	defer func() {
 		if p := recover(); p != nil {
 			res = Result{Ops: ops, Obs: "harness-panic", Oracle: fmt.Sprintf("panic outside ServeHTTP: %v", p)}
 		}
 	}()
+	ops = c07Ops(c)
+	reqs := append([]*c07Case{c}, c.Then...)
 	var resp *echo.Response
-	e := c07NewEcho(c, func(ctx echo.Context) { resp = ctx.Response() })
+	cur := c
+	e := c07NewEcho(c, func() *c07Case { return cur }, func(ctx echo.Context) { resp = ctx.Response() })
+
+	oracle := ""
+	tagSet := map[string]bool{}
+	obs := []string{wInt(len(reqs))}
+	nontrivial := len(reqs) > 1
+	for i, rq := range reqs {
+		cur, resp = rq, nil
+		o, msg, nt := c07One(e, c, rq, &resp, tagSet)
+		obs = append(obs, o)
+		nontrivial = nontrivial || nt
+		if msg != "" && oracle == "" {
+			if len(reqs) > 1 {
+				msg = fmt.Sprintf("request %d of %d through the same Echo: %s", i+1, len(reqs), msg)
+			}
+			oracle = msg
+		}
+	}
+	if len(reqs) > 1 {
+		tagSet[fmt.Sprintf("sequence-of-%d", len(reqs))] = true
+	}
+
+	// the server goes on serving
+	rec := httptest.NewRecorder()
+	func() {
+		defer func() {
+			if r := recover(); r != nil && oracle == "" {
+				oracle = fmt.Sprintf("follow-up request panicked: %v", r)
+			}
+		}()
+		e.ServeHTTP(rec, httptest.NewRequest(http.MethodGet, "/ok", nil))
+	}()
+	if (rec.Code != http.StatusOK || rec.Body.String() != "ok") && oracle == "" {
+		oracle = fmt.Sprintf("follow-up request not served: status %d body %q", rec.Code, rec.Body.String())
+	}
+	var tags []string
+	for t := range tagSet {
+		tags = append(tags, t)
+	}
+	return Result{Ops: ops, Obs: strings.Join(obs, " "), Oracle: oracle, Tags: tags, Nontrivial: nontrivial}
+}
+
+// c07One serves one failing request (c) on the Echo built from cfg and judges it on its own:
+// observation in the model's format, oracle verdict, non-triviality
+func c07One(e *echo.Echo, cfg, c *c07Case, resp **echo.Response, tagSet map[string]bool) (string, string, bool) {
 	w := &c07Writer{h: http.Header{}}
 	req := httptest.NewRequest(c.Method, "/x", nil)
 	crashed := false
@@ -368,7 +429,7 @@ func c07Run(ci any) (res Result) {
 			}
 		}()
 		e.ServeHTTP(w, req)
-		committed = resp != nil && resp.Committed
+		committed = *resp != nil && (*resp).Committed
 	}()
 
 	oracle := ""
@@ -377,23 +438,7 @@ func c07Run(ci any) (res Result) {
 			oracle = fmt.Sprintf(format, a...)
 		}
 	}
-	tags := []string{}
-	tag := func(t string) { tags = append(tags, t) }
-
-	// the server goes on serving
-	rec := httptest.NewRecorder()
-	func() {
-		defer func() {
-			if r := recover(); r != nil {
-				fail("follow-up request panicked: %v", r)
-			}
-		}()
-		e.ServeHTTP(rec, httptest.NewRequest(http.MethodGet, "/ok", nil))
-	}()
-	if rec.Code != http.StatusOK || rec.Body.String() != "ok" {
-		fail("follow-up request not served: status %d body %q", rec.Code, rec.Body.String())
-	}
-
+	tag := func(t string) { tagSet[t] = true }
 	// observation in the model's format
 	var obs string
 	status := 0
@@ -417,7 +462,7 @@ func c07Run(ci any) (res Result) {
 	// ---------- model-free oracle ----------
 	head := c.Method == http.MethodHead
 	preCommitted := c.Pre == "wrote" || c.Pre == "nocontent" || c.Pre == "flush" || c.Pre == "writeheader"
-	expectCrash := c.Panic != "" && (!c.Recover || c.Panic == "abort")
+	expectCrash := c.Panic != "" && (!cfg.Recover || c.Panic == "abort")
 	var body []byte
 	for _, ch := range w.chunks {
 		body = append(body, ch...)
@@ -431,7 +476,7 @@ func c07Run(ci any) (res Result) {
 		fail("the panic escaped ServeHTTP although Recover is installed")
 	} else {
 		// information leak (checked first: the gravest way to fail)
-		if !c.Debug {
+		if !cfg.Debug {
 			var secrets []int
 			if c.Panic == "" || c.Panic == "err" {
 				c07Secrets(c.Err, &secrets)
@@ -514,7 +559,7 @@ func c07Run(ci any) (res Result) {
 							fail("body %q is not the message value %s", body, want)
 						}
 					}
-					if _, has := obj["error"]; has && !c.Debug {
+					if _, has := obj["error"]; has && !cfg.Debug {
 						fail("\"error\" detail in the body although Debug is off: %q", body)
 					}
 				}
@@ -523,14 +568,14 @@ func c07Run(ci any) (res Result) {
 	}
 
 	// real server round trip: what a client gets is what the recording writer saw
-	if c.RoundTrip && !expectCrash && !crashed {
+	if cfg == c && c.RoundTrip && len(c.Then) == 0 && !expectCrash && !crashed {
 		tag("round-trip")
 		if msg := c07RoundTrip(c, status, body); msg != "" {
 			fail("%s", msg)
 		}
 	}
 
-	if c.Debug {
+	if cfg.Debug {
 		tag("debug")
 	}
 	if c.Panic != "" {
@@ -538,10 +583,10 @@ func c07Run(ci any) (res Result) {
 	} else {
 		tag("returned")
 	}
-	if c.Double {
+	if cfg.Double {
 		tag("double-handling-middleware")
 	}
-	if c.DisableEH {
+	if cfg.DisableEH {
 		tag("recover-returns-error")
 	}
 	if c.Err != nil {
@@ -565,12 +610,11 @@ func c07Run(ci any) (res Result) {
 	if c.Pre == "jsonbad" {
 		tag("status-preset-before")
 	}
-	return Result{Ops: ops, Obs: obs, Oracle: oracle, Tags: tags,
-		Nontrivial: c07Depth(c.Err) >= 2 || c.Panic != "" || preCommitted || c.Double}
+	return obs, oracle, c07Depth(c.Err) >= 2 || c.Panic != "" || preCommitted || cfg.Double
 }
 
 func c07RoundTrip(c *c07Case, status int, body []byte) string {
-	e := c07NewEcho(c, nil)
+	e := c07NewEcho(c, func() *c07Case { return c }, nil)
 	srv := httptest.NewServer(e)
 	defer srv.Close()
 	req, _ := http.NewRequest(c.Method, srv.URL+"/x", nil)
@@ -685,7 +729,44 @@ func c07Gen(r *rand.Rand, tier string) []any {
 	}
 	var out []any
 	for i := 0; i < n; i++ {
-		out = append(out, c07GenCase(r, depth))
+		c := c07GenCase(r, depth)
+		// a third of the cases: 1-3 more failing requests through the same Echo (pooled context reused)
+		if r.Intn(3) == 0 {
+			for k := 1 + r.Intn(3); k > 0; k-- {
+				c.Then = append(c.Then, c07GenCase(r, depth))
+			}
+		}
+		out = append(out, c)
+	}
+	// sequences aimed at state that survives a request: panic after panic, error after panic,
+	// panic after error, with every Echo-level configuration
+	for _, recoverOn := range []bool{true, false} {
+		for _, disableEH := range []bool{false, true} {
+			for _, double := range []bool{false, true} {
+				for _, debug := range []bool{false, true} {
+					kinds := [][]string{{"str", "str"}, {"err", "int", "struct"}, {"", "str", ""}, {"str", "", "err"}, {"", ""}, {"err", "err", "err", "err"}}
+					for _, ks := range kinds {
+						var head *c07Case
+						for i, k := range ks {
+							g := &c07G{r: r, next: 100 * i}
+							rq := &c07Case{Method: []string{http.MethodGet, http.MethodPost, http.MethodHead}[r.Intn(3)], Panic: k}
+							if k == "" || k == "err" {
+								rq.Err = g.err(1 + r.Intn(depth))
+							} else {
+								rq.PanicT = g.atom()
+							}
+							if head == nil {
+								head = rq
+								head.Debug, head.Recover, head.DisableEH, head.Double = debug, recoverOn, disableEH, double
+							} else {
+								head.Then = append(head.Then, rq)
+							}
+						}
+						out = append(out, head)
+					}
+				}
+			}
+		}
 	}
 	// adversarial shapes aimed at the decision points
 	g := &c07G{r: r, next: 500}
@@ -740,6 +821,19 @@ func c07Shrink(ci any) []any {
 	}
 	if c.RoundTrip {
 		add(func(d *c07Case) { d.RoundTrip = false })
+	}
+	for i := range c.Then {
+		i := i
+		// drop a later request; or drop everything before it (it becomes the first, keeping the configuration)
+		add(func(d *c07Case) { d.Then = append(append([]*c07Case(nil), c.Then[:i]...), c.Then[i+1:]...) })
+	}
+	if len(c.Then) > 0 {
+		add(func(d *c07Case) {
+			h := *c.Then[0]
+			h.Debug, h.Recover, h.DisableEH, h.Double, h.RoundTrip = c.Debug, c.Recover, c.DisableEH, c.Double, false
+			h.Then = append([]*c07Case(nil), c.Then[1:]...)
+			*d = h
+		})
 	}
 	if c.Double {
 		add(func(d *c07Case) { d.Double = false })
@@ -817,12 +911,12 @@ func c07Mutate(r *rand.Rand, ci any) []any {
 func init() {
 	register(&Prop{
 		ID:             "C07",
-		Rule:           "error values as trees: plain | fmt.Errorf(%w) wrap | *echo.HTTPError (NewHTTPError / literal / SetInternal / WithInternal) with message kinds {string, default StatusText, error value, json.Marshaler (also one that is an error too), map/struct/slice, nil (no message: literal without Message, NewHTTPError(code, nil))} and Internal {none, plain, wrapped, HTTPError, nested}, depth <= 3 (thorough: 5), codes 200-599 incl. 204/304; x returned or panicked (panic values: error, string, int, struct, http.ErrAbortHandler) x Recover installed or not x RecoverConfig.DisableErrorHandler x an outer middleware that calls c.Error(err) AND returns err x handler did {nothing, String, NoContent, Flush, WriteHeader, failed JSON} before failing x GET/HEAD/POST x Debug; plus a fixed family aimed at the decision points (two Internal levels, %w around / inside an HTTPError); every text is a unique marker; a follow-up request checks the server still serves; thorough: 3000 cases also through a real httptest.Server; non-trivial = tree depth >= 2, or a panic, or committed before the error, or the double-handling middleware",
+		Rule:           "error values as trees: plain | fmt.Errorf(%w) wrap | *echo.HTTPError (NewHTTPError / literal / SetInternal / WithInternal) with message kinds {string, default StatusText, error value, json.Marshaler (also one that is an error too), map/struct/slice, nil (no message: literal without Message, NewHTTPError(code, nil))} and Internal {none, plain, wrapped, HTTPError, nested}, depth <= 3 (thorough: 5), codes 200-599 incl. 204/304; x returned or panicked (panic values: error, string, int, struct, http.ErrAbortHandler) x Recover installed or not x RecoverConfig.DisableErrorHandler x an outer middleware that calls c.Error(err) AND returns err x handler did {nothing, String, NoContent, Flush, WriteHeader, failed JSON} before failing x GET/HEAD/POST x Debug; plus a fixed family aimed at the decision points (two Internal levels, %w around / inside an HTTPError); every text is a unique marker; a third of the cases and a fixed family serve 2-4 failing requests (returned errors and recovered panics, mixed) through the SAME Echo one after the other on one goroutine (pooled context reused), each judged on its own; a follow-up request checks the server still serves; thorough: 3000 cases also through a real httptest.Server; non-trivial = tree depth >= 2, or a panic, or committed before the error, or the double-handling middleware, or a sequence of requests",
 		New:            func() any { return &c07Case{} },
 		Gen:            c07Gen,
 		Run:            c07Run,
 		Shrink:         c07Shrink,
 		Mutate:         c07Mutate,
-		Correspondence: "C07.serve (lean/EchoModel/C07.lean) vs Echo.ServeHTTP + Echo.DefaultHTTPErrorHandler + middleware.Recover on a recording http.ResponseWriter",
+		Correspondence: "C07.serveAll / C07.serve (lean/EchoModel/C07.lean) vs Echo.ServeHTTP + Echo.DefaultHTTPErrorHandler + middleware.Recover on a recording http.ResponseWriter",
 	})
 }
